@@ -66,6 +66,8 @@ type Obligation struct {
 	Known   string // known-finding id if matched
 	smtText string
 	smtNoQ  string
+	smtFull string
+	noCOI   bool
 }
 
 type State struct {
@@ -166,6 +168,7 @@ type VC struct {
 	usedAssumptions map[string]bool
 	maxPaths int
 	noDefine int
+	defCache map[string]string
 	entryCache map[*ssa.Package]*State
 	entryErr map[*ssa.Package]error
 	pureCache map[string][]Val
@@ -244,11 +247,20 @@ func (vc *VC) define(prefix string, t Term) Term {
 	if len(t.E) < 160 || t.IsConst() || vc.noDefine > 0 {
 		return t
 	}
-	vc.nfresh++
-	name := fmt.Sprintf("%s!%d", sanitize(prefix), vc.nfresh)
-	vc.decl(fmt.Sprintf("(define-fun %s () %s %s)", name, t.S.String(), t.E))
+	if vc.defCache == nil {
+		vc.defCache = map[string]string{}
+	}
+	key := t.S.String() + "|" + t.E
+	name, ok := vc.defCache[key]
+	if !ok {
+		vc.nfresh++
+		name = fmt.Sprintf("%s!%d", sanitize(prefix), vc.nfresh)
+		vc.decl(fmt.Sprintf("(define-fun %s () %s %s)", name, t.S.String(), t.E))
+		vc.defCache[key] = name
+	}
 	r := t
 	r.E = name
+	r.Conj = nil
 	return r
 }
 
@@ -1116,6 +1128,14 @@ func (o *Obligation) SMT(produceModels bool) string {
 	return o.smtVariant(produceModels, false)
 }
 
+// SMTFull keeps every assumption (no cone-of-influence pruning): needed when the path
+// itself is infeasible for reasons unrelated to the goal's symbols.
+func (o *Obligation) SMTFull(produceModels bool) string {
+	o.noCOI = true
+	defer func() { o.noCOI = false }()
+	return o.smtVariant(produceModels, false)
+}
+
 // smtVariant with dropQuantified omits universally quantified assumptions (a weaker
 // hypothesis set, so unsat still discharges the obligation).
 func (o *Obligation) smtVariant(produceModels bool, dropQuantified bool) string {
@@ -1130,7 +1150,7 @@ func (o *Obligation) smtVariant(produceModels bool, dropQuantified bool) string 
 		}
 	}
 	assumes := o.Assumes
-	if !o.Cover {
+	if !o.Cover && !o.noCOI {
 		assumes = vc.coneOfInfluence(o, infos)
 	}
 	for _, a := range assumes {
